@@ -165,7 +165,10 @@ def verify_function(world, reg, c, prop, timeout_ms=20000, mutate=None, recheck=
         it.oblige(f'{name}/raises-unless[{exc}]/normal-exit', it.spec(cond, env2, old), 'raises-unless',
                   {'text': f'returns normally only if {cond}'})
       for k, e in enumerate(c.ensures):
-        it.oblige(f'{name}/ensures#{k}', it.spec(e, env2, old), 'postcondition', {'text': e})
+        # a clause marked `impl:` pins the implementation more tightly than the property does (a refinement): it carries the
+        # proof, but its failure alone is not a violation of the property (decided by the property-level clauses / stand-in)
+        impl = e.startswith('impl:')
+        it.oblige(f'{name}/ensures#{k}', it.spec(e[5:].strip() if impl else e, env2, old), 'impl-postcondition' if impl else 'postcondition', {'text': e})
     else:
       env2['raised'] = val
       allowed = False
